@@ -15,11 +15,18 @@ structure Acc where
   gaveUp   : List Ev := []
   routed   : List Ev := []   -- handed to the dead queue (Router.Fail)
   commits  : List Ev := []
+  parents  : List Ev := []     -- split parents (Batch.ForEach skips them: they carry no payload of their own)
+  kidsAdded : List Kid := []   -- children of split parents handed to the output
+  kidsDone  : List Kid := []   -- children seen by a send that returned nil (or given up)
   /-- first violation: (kind, committed event, offending earlier event) -/
   bad      : Option (String × Ev × Ev) := none
 deriving Repr
 
-def finished (a : Acc) (e : Ev) : Bool := a.acked.contains e || a.gaveUp.contains e
+/-- finished for the output: acknowledged or given up; a split parent is finished when every
+    child of it that was handed to the output was seen by a send that returned nil -/
+def finished (a : Acc) (e : Ev) : Bool :=
+  if a.parents.contains e then a.kidsAdded.all (fun kid => kid.1 != e || a.kidsDone.contains kid)
+  else a.acked.contains e || a.gaveUp.contains e
 
 def note (a : Acc) (kind : String) (e e' : Ev) : Acc :=
   match a.bad with
@@ -34,10 +41,13 @@ def frontierStep (a : Acc) : Op → Acc
   | .accept e => { a with accepted := a.accepted ++ [e] }
   | .drop e => { a with dropped := a.dropped ++ [e] }
   | .sendOk _ _ evs => { a with acked := a.acked ++ evs }
-  | .giveUp d evs =>
+  | .giveUp d _ evs =>
     if !d && a.hasDQ then { a with routed := a.routed ++ evs } else { a with gaveUp := a.gaveUp ++ evs }
+  | .spawn p _ => if a.parents.contains p then a else { a with parents := a.parents ++ [p] }
+  | .addKid p k => { a with kidsAdded := a.kidsAdded ++ [(p, k)] }
+  | .kidAck p k => { a with kidsDone := a.kidsDone ++ [(p, k)] }
   | .commit e =>
-    let a1 := if finished a e then a else note a "unacked" e e
+    let a1 := if finished a e then a else note a (if a.parents.contains e then "kids" else "unacked") e e
     let a2 := a.accepted.foldl (fun acc e' =>
       if e'.st == e.st && decide (e'.seq < e.seq) && !(finished a e' || a.dropped.contains e') then
         note acc (if a.routed.contains e' || a.routed.contains e then "dq" else "passed") e e'
@@ -54,7 +64,7 @@ def orderStep (a : Acc) : Op → Acc
   | .drop e =>
     let a1 := if a.dropped.contains e || a.commits.contains e then note a "twice" e e else a
     { a1 with dropped := a1.dropped ++ [e] }
-  | .giveUp d evs =>
+  | .giveUp d _ evs =>
     if !d && a.hasDQ then { a with routed := a.routed ++ evs } else a
   | .commit e =>
     let a1 := if a.dropped.contains e || a.commits.contains e then note a "twice" e e else a
